@@ -286,12 +286,15 @@ func resultsChild(args []string) error {
 		lens := []int{}
 		notAssignable := []string{}
 		alts := [][]string{}
+		altConst := [][]bool{} // which alternatives are constants (the others are types)
 		if !pn.Panicked {
 			for i, rs := range res {
 				lens = append(lens, len(rs))
 				a := []string{}
+				ac := []bool{}
 				for _, r := range rs {
 					a = append(a, resultString(r))
+					ac = append(ac, r.Value != nil)
 					if r.Value != nil {
 						// a constant: of a kind a value of the declared result type can have
 						if i < declared && !constFits(r.Value, sig.Results().At(i).Type()) {
@@ -305,6 +308,7 @@ func resultsChild(args []string) error {
 					notAssignable = append(notAssignable, fmt.Sprintf("%d:%s", i, resultString(r)))
 				}
 				alts = append(alts, a)
+				altConst = append(altConst, ac)
 			}
 		}
 		obs["n"] = n
@@ -312,6 +316,7 @@ func resultsChild(args []string) error {
 		obs["not_assignable"] = notAssignable
 		obs["again_equal"] = !pn.Panicked && n == n2 && res.String() == res2.String()
 		obs["alts"] = alts
+		obs["alt_is_const"] = altConst
 		ob, _ := json.Marshal(obs)
 		fmt.Fprintf(out, "D %d %s\n", idx, ob)
 		if !pn.Panicked {
@@ -427,7 +432,7 @@ func superviseResults(self, dir string, onlyLocal bool, emitUnit func(key result
 		}
 		// the unit in progress killed the process: fatal error (stack overflow) or time budget
 		emitUnit(pendingKey, map[string]any{"fatal": !timedOut, "timeout": timedOut, "panicked": false, "panic_msg": tail(firstLines(se.String(), 3), 300), "panic_site": "",
-			"declared_n": 0, "n": 0, "lens": []int{}, "not_assignable": []string{}, "again_equal": false, "later_equal": true, "alts": [][]string{}})
+			"declared_n": 0, "n": 0, "lens": []int{}, "not_assignable": []string{}, "again_equal": false, "later_equal": true, "alts": [][]string{}, "alt_is_const": [][]bool{}})
 		examined++
 		skip = pendingIdx + 1
 	}
